@@ -421,6 +421,11 @@ def run(ctx):
     template_binding_obligation(ctx)
     node_kinds_obligation(ctx)
     registry_obligation(ctx)
+    # every writer walks tab.tree: the structure Tree._build makes of the branches (one child structure per distinct node at a split, every
+    # branch under exactly one leaf) is C16's obligation, re-stated under C19 names
+    from checks import c16 as _c16
+    ctx.restate(_c16.build_tree, 'C16.Tree._build.', 'C19.tree.')
+    ctx.replayers['C19.tree.'] = _c16.replay_build_tree
     table_totality(ctx)
     bounded_render(ctx)
     ctx.replayers['C19.text.template-bound'] = replay_template_binding
